@@ -93,7 +93,19 @@ def run(rep, model, tier, seed, broken=()):
             cases.append((pipe.case_from_json(json.loads(f.read_text())["case"]), "corpus"))
         rep.coverage["corpus_cases"] = len(cases)
         for i in range(nmods):
-            mod = gen.gen_module(rng, budget=rng.choice([3, 6, 12, 20]))
+            # settings vary too: the guarantee is unconditional (any include_undocumented_* vector, files with
+            # and without doccomments)
+            r = rng.random()
+            if r < 0.55:
+                flags = {}
+            elif r < 0.7:
+                flags = {n: False for n in pipe.FLAG_NAMES}
+            else:
+                flags = {n: rng.random() < 0.5 for n in pipe.FLAG_NAMES}
+            doc_p = rng.choice([0.0, 0.0, 0.3, 0.5])
+            mod = gen.gen_module(rng, budget=rng.choice([3, 6, 12, 20]), doc_p=doc_p)
+            if doc_p == 0.0:
+                strip_docs(mod)       # a file without any doccomment opener
             text = gen.print_module(mod, rng, trivia_p=rng.choice([0, 0.2, 0.4]))
             positions, parens = positions_outside_comments(model, text)
             if not positions:
@@ -109,7 +121,8 @@ def run(rep, model, tier, seed, broken=()):
                     t3 = inject(rng, t2, pos2 or positions, par2, f2) if (pos2 or f2 in ("backslash_eof",)) else None
                     if t3 is not None:
                         t2, fault = t3, fault + "+" + f2
-                cases.append((pipe.norm_case(dict(data=t2)), fault))
+                cases.append((pipe.norm_case(dict(data=t2, flags=flags)), fault))
+                rep.dist("flags:" + ("default" if not flags else "all_off" if not any(flags.values()) else "mixed"))
         reqs = [pipe.req_page(c) for c, _ in cases]
         replies = model.call_many(reqs)
         nbad = 0
@@ -165,6 +178,25 @@ def run(rep, model, tier, seed, broken=()):
         pipe.crosscheck(rep)
     finally:
         gen.set_ascii(False)
+
+
+def strip_docs(mod):
+    def rec(nodes):
+        out = []
+        for n in nodes:
+            if n.get("kind") == "dangling":
+                continue
+            n = dict(n)
+            if "doc" in n:
+                n["doc"] = None
+            if "body" in n:
+                n["body"] = rec(n["body"])
+            if n.get("impl"):
+                n["impl"] = rec([n["impl"]])[0]
+            out.append(n)
+        return out
+    mod["module"] = None
+    mod["body"] = rec(mod["body"])
 
 
 def shrink_text(model, c):
